@@ -81,7 +81,11 @@ func TestC07(t *testing.T) {
 				}
 			}
 		}
-		d := hx.GenDerived(t, base, 4)
+		steps := 4
+		if hx.Rarely(t, 600, "blocksize") {
+			base, steps = hx.GenBlockTable(t), 1
+		}
+		d := hx.GenDerived(t, base, steps)
 		in := d.Input(t)
 		custom := rapid.IntRange(0, 2).Draw(t, "customctx") == 0
 		want := rapid.SampledFrom([]hx.Kind{hx.KInt, hx.KFloat, hx.KBool, hx.KString, hx.KEnum}).Draw(t, "want")
